@@ -48,10 +48,12 @@ from .. import c16_harness as H
 PID = "C16"
 ENUM_LIMIT = 5000
 RULE = ("config = (mesh, trial element, test element, cell/facet basis, integrand, dtype, keyword parameters) x "
-        "nthreads in 1..Nu*Nv+2 (the sweep adds 2*Nu*Nv+5 and the decorator / numpy-integer spellings); per (config, nthreads) a free probe run yields the per-worker pair sequences, then "
+        "nthreads in 1..Nu*Nv+2 (the sweep adds 2*Nu*Nv+5 and the decorator / numpy-integer spellings); per "
+        "(config, nthreads) a free probe run yields the per-worker pair sequences, then "
         "(a) controlled schedules: ALL interleavings of the per-worker gate sequences when their multinomial count "
         f"<= {ENUM_LIMIT} (kernel granularity: one gate per integrand call; fine granularity: a second gate between "
-        "compute and store), else structured + random samples (quick tier of the sampled-large family: limit 200); (b) free-running runs with sys.monitoring LINE/"
+        "compute and store), else structured + random samples (quick tier of the sampled-large family: limit "
+        "200); (b) free-running runs with sys.monitoring LINE/"
         "PY_RETURN yield injection (sleep(0) / 0-200 us) and shortened GIL switch interval.  One distinct non-trivial "
         "case = (Nu, Nv, nthreads, granularity, hash of the global gate-passage order) of a run in which >= 2 workers "
         "that each computed >= 1 pair were alive at the same time")
